@@ -393,6 +393,13 @@ CHECKS["C04"]["text"] += (" The pattern-discovery metrics (_occurrence_intersect
                           "precision above 1 in standard_FPR mirrored) and re-states the documented definitions and the [0, 1] "
                           "range on the code as translated; suite gen_pattern runs the translated definitions and the run-time "
                           "primitives against the real functions / NumPy.")
+CHECKS["C04"]["text"] += (" Of mir_eval/beat.py, trim_beats, _get_reference_beat_variations (np.arange / np.interp / [k::2] slices) and "
+                          "p_score (impulse trains, np.correlate and the Python slice, statement by statement) are REGENERATED on every run "
+                          "(translator part `beat` -> lean/MirGen/Beat.lean over MirModel/PyBeat.lean) and Props/C04_GenBeat.lean proves "
+                          "each translated definition equal to the hand model for all beat lists (value or exception class) and "
+                          "re-states the variation / P-score definitions on the code as translated; suite gen_beat runs them and the "
+                          "run-time primitives against the real functions / NumPy; goto, continuity, cemgil, information_gain and "
+                          "evaluate stay hand model + correspondence.")
 
 
 def main():
